@@ -94,6 +94,33 @@ func c05Run(cs c05Case) []c05Fail {
 		add("setup", "entry: %v", err)
 		return fs
 	}
+	if cs.Mode == "dead" && cs.Entry == "EN" {
+		// the entry member must not be one of the members that get killed (a killed member neither
+		// sends requests nor receives replies): take a non-owner outside the killed set, or skip
+		// the case when every non-owner is killed
+		killed := map[string]bool{}
+		for i, b := range backups {
+			if (cs.PutCut|cs.GetCut)&(1<<uint(i)) != 0 {
+				killed[b.Name] = true
+			}
+		}
+		var pick *simcluster.Member
+		for _, m := range cl.Live() {
+			if m != owner && !killed[m.Name] {
+				pick = m
+				break
+			}
+		}
+		if pick == nil {
+			return fs
+		}
+		dm, err := pick.Emb.NewDMap("d")
+		if err != nil {
+			add("setup", "entry: %v", err)
+			return fs
+		}
+		kv = simcluster.WrapDMap("EN@"+pick.Name, dm)
+	}
 	// warm the connections the entry point needs so that a cut only affects owner->backup traffic
 	kv.Get("warmup")
 	setCut := func(mask int, on bool) int {
